@@ -11,8 +11,9 @@ from __future__ import annotations
 
 import numpy as np
 
-from .common import And, Case, Implies, Not, Or, SB, SR, clone_config
+from .common import And, Case, Implies, Not, Or, SB, SR, all_of, clone_config, exact, isnan, vals
 from . import ens
+from symnp.core import PathAbort
 
 
 class Hang(Exception):
@@ -294,6 +295,268 @@ class ChildCase(Case):
                 ("normal_exit_code", SB(o["rc"] == 0))]
 
 
+class _ChildKilled(BaseException):
+    """SIGTERM delivered to the (thread that plays the) optimizer process"""
+
+
+def _jsonish(obj):
+    """What a value looks like after json.dumps(cls=NumpyEncoder) / json.loads: arrays and tuples become lists,
+    numbers (NaN and infinities included), booleans and strings come back unchanged."""
+    from symnp import SymArray
+    if isinstance(obj, SymArray):
+        return _jsonish(obj.tolist())
+    if isinstance(obj, np.ndarray):
+        return _jsonish(obj.tolist())
+    if isinstance(obj, dict):
+        return {str(k): _jsonish(v) for k, v in obj.items()}
+    if isinstance(obj, (list, tuple)):
+        return [_jsonish(v) for v in obj]
+    return obj
+
+
+class LoopbackCase(Case):
+    """Both real halves of the protocol wired together: ExternalOptimizer.start on the parent side and
+    _PluginOptimizer.run on the optimizer-process side (a thread; the FIFO pair is a pair of queues carrying
+    JSON-shaped values).  The same scripted algorithm is then run in-process; the two traces must be identical."""
+
+    family = "external-process/loopback"
+
+    def __init__(self, cid, *, script, parallel=False, abort_at=None, algorithm_fails_at=None):
+        """script: (batch size or 0, return_functions, return_gradients) per request of the algorithm"""
+        self.id, self.script, self.parallel, self.abort_at, self.fails_at = cid, tuple(script), parallel, abort_at, algorithm_fails_at
+        self.N, self.F = 2, 2
+        self.cfg_ext = ens.ensemble_config(N=2, R=1, P=1, C=1, extra={"optimizer": {"method": "external/symstub/x", "parallel": parallel}})
+        self.cfg_in = ens.ensemble_config(N=2, R=1, P=1, C=1, extra={"optimizer": {"method": "symstub/x", "parallel": parallel}})
+
+    def describe(self):
+        return (f"loopback script={self.script} parallel={self.parallel} callback_aborts_at={self.abort_at} "
+                f"algorithm_raises_at={self.fails_at}")
+
+    def inputs(self, env):
+        n = len(self.script)
+        pts, F, G = [], [], []
+        for e, (b, fn, gr) in enumerate(self.script):
+            rows = max(1, b)
+            pts.append(env.reals(f"x{e}", (rows, self.N), lo=-10, hi=10))
+            f = env.reals(f"f{e}", (rows, self.F), lo=-100, hi=100)
+            for i in range(rows):
+                f[i, 0] = SR(f[i, 0].v, env.flag(f"nan{e}_{i}").t)     # the back-end may be handed NaN
+            F.append(f)
+            G.append(env.reals(f"g{e}", (self.F, self.N), lo=-100, hi=100))
+        return {"pts": pts, "F": F, "G": G, "x0": env.reals("x0", self.N, lo=-10, hi=10)}
+
+    # ---- one run of the scripted algorithm against a recording callback
+    def _algorithm(self, env, inp, seen):
+        def script(opt, x0):
+            seen["x0"] = x0
+            for e, (b, fn, gr) in enumerate(self.script):
+                if self.fails_at == e:
+                    raise ArithmeticError("boom")
+                x = env.arr(inp["pts"][e] if b else inp["pts"][e][0])
+                seen.setdefault("received", []).append(opt.callback(x, return_functions=fn, return_gradients=gr))
+        return script
+
+    def _callback(self, env, inp, calls):
+        def callback(variables, *, return_functions, return_gradients):
+            e = len(calls)
+            calls.append((variables, return_functions, return_gradients))
+            if self.abort_at == e:
+                from ropt.enums import OptimizerExitCode
+                from ropt.exceptions import OptimizationAborted
+                raise OptimizationAborted(exit_code=OptimizerExitCode.MAX_FUNCTIONS_REACHED)
+            b = self.script[e][0] if e < len(self.script) else 0
+            f = env.arr(inp["F"][e] if b else inp["F"][e][0]) if return_functions else env.const(np.array([]))
+            g = env.arr(inp["G"][e]) if return_gradients else env.const(np.array([]))
+            return f, g
+        return callback
+
+    def run(self, env, inp):
+        import queue
+        import threading
+
+        import ropt.plugins.optimizer.external as X
+
+        pm = ens.stub_optimizer_manager()
+        # ---------------- in-process
+        seen_in, calls_in = {}, []
+        ens.set_script(self._algorithm(env, inp, seen_in), parallel=self.parallel)
+        out_in = None
+        try:
+            pm.get_plugin("optimizer", "symstub/x").create(clone_config(self.cfg_in), self._callback(env, inp, calls_in)).start(env.arr(inp["x0"]))
+        except (PathAbort, KeyboardInterrupt, SystemExit):
+            raise
+        except BaseException as e:  # noqa: BLE001
+            out_in = e
+        # ---------------- through the external plug-in, both halves real
+        seen_ex, calls_ex = {}, []
+        ens.set_script(self._algorithm(env, inp, seen_ex), parallel=self.parallel)
+        link = {"p2c": queue.Queue(), "c2p": queue.Queue(), "done": threading.Event(), "killed": False, "rc": None, "exc": None,
+                "thread": None, "signals": [], "waited": 0, "polls": 0}
+
+        def check_child():
+            if link["exc"] is not None:
+                exc, link["exc"] = link["exc"], None
+                raise exc     # a path decision taken in the child thread (or a harness bug) belongs to the explorer
+
+        class FakeComm:
+            def __init__(self, read_pipe, write_pipe, timeout=1.0):
+                self.child = threading.current_thread() is link["thread"]
+
+            def __enter__(self):
+                return self
+
+            def __exit__(self, *a):
+                pass
+
+            def read(self):
+                q = link["p2c"] if self.child else link["c2p"]
+                while True:
+                    if self.child and link["killed"]:
+                        raise _ChildKilled
+                    try:
+                        return q.get(timeout=0.005)
+                    except queue.Empty:
+                        if not self.child:
+                            check_child()
+                            if link["done"].is_set() and q.empty():
+                                return None
+
+            def write(self, data):
+                if self.child and link["killed"]:
+                    raise _ChildKilled
+                (link["c2p"] if self.child else link["p2c"]).put(_jsonish(data))
+                return True
+
+        class FakeProc:
+            pid = 4243
+            returncode = None
+
+            def poll(self):
+                link["polls"] += 1
+                if link["polls"] > 2000:
+                    raise Hang("start() keeps polling")
+                check_child()
+                if link["done"].is_set():
+                    self.returncode = link["rc"]
+                return self.returncode
+
+            def wait(self, timeout=None):
+                link["waited"] += 1
+                link["thread"].join(5)
+                check_child()
+                self.returncode = link["rc"]
+                return self.returncode
+
+        def child_main(args):
+            import pathlib
+            try:
+                link["rc"] = X._PluginOptimizer(int(args[3])).run(pathlib.Path(args[1]), pathlib.Path(args[2]))
+            except _ChildKilled:
+                link["rc"] = -15
+            except SystemExit as e:
+                link["rc"] = int(e.code or 0)
+            except BaseException as e:  # noqa: BLE001 - handed to the parent thread
+                link["exc"], link["rc"] = e, 70
+            finally:
+                link["done"].set()
+
+        class FakeSubprocess:
+            TimeoutExpired = X.subprocess.TimeoutExpired
+
+            @staticmethod
+            def Popen(args):  # noqa: N802
+                link["thread"] = threading.Thread(target=child_main, args=(args,), daemon=True)
+                link["thread"].start()
+                return FakeProc()
+
+        class FakeOs:
+            def __getattr__(self, k):
+                return getattr(__import__("os"), k)
+
+            def kill(self, pid, sig):
+                if sig == 0:
+                    return None                     # the child asking whether its parent lives
+                link["signals"].append((sig, link["done"].is_set()))
+                if link["done"].is_set():
+                    raise ProcessLookupError
+                link["killed"] = True
+
+        class FakeTime:
+            @staticmethod
+            def sleep(t):
+                pass
+
+        class FakeAtexit:
+            @staticmethod
+            def register(f):
+                pass
+
+        old = (X.subprocess, X._JSONPipeCommunicator, X.os, X.time, X.atexit, X.PluginManager)
+        out_ex = None
+        try:
+            X.PluginManager = lambda: pm
+            opt = X.ExternalOptimizer(clone_config(self.cfg_ext), self._callback(env, inp, calls_ex))
+            X.subprocess, X._JSONPipeCommunicator, X.os, X.time, X.atexit = FakeSubprocess, FakeComm, FakeOs(), FakeTime, FakeAtexit
+            try:
+                opt.start(env.arr(inp["x0"]))
+            except (Hang, PathAbort, KeyboardInterrupt, SystemExit):
+                raise
+            except BaseException as e:  # noqa: BLE001
+                out_ex = e
+            flags = (opt.allow_nan, opt.is_parallel)
+        finally:
+            link["killed"] = True
+            if link["thread"] is not None:
+                link["thread"].join(5)
+            X.subprocess, X._JSONPipeCommunicator, X.os, X.time, X.atexit, X.PluginManager = old
+        alive = link["thread"] is not None and link["thread"].is_alive()
+        return {"in": (seen_in, calls_in, out_in), "ex": (seen_ex, calls_ex, out_ex), "alive_after_start": alive,
+                "rc": link["rc"], "flags": flags, "waited": link["waited"]}
+
+    def props(self, env, inp, oc):
+        if not oc.ok:
+            if isinstance(oc.exc, Hang):
+                return [("start_terminates_within_the_bounded_schedule", SB(False))]
+            return [("no_internal_exception:" + type(oc.exc).__name__, SB(False))]
+        (seen_i, calls_i, out_i), (seen_e, calls_e, out_e) = oc.value["in"], oc.value["ex"]
+        props = []
+
+        def same(tag, a, b):
+            a, b = np.asarray(vals(a), dtype=object), np.asarray(vals(b), dtype=object)
+            if a.shape != b.shape:
+                props.append((f"{tag}.same_shape", SB(False)))
+                return
+            props.append((tag, all_of(Or(And(isnan(p), isnan(q)), exact(p, q)) for p, q in zip(a.flat, b.flat))))
+
+        props.append(("same_number_of_evaluations", SB(len(calls_i) == len(calls_e))))
+        for e, (ci, ce) in enumerate(zip(calls_i, calls_e)):
+            same(f"evaluation{e}.same_variables", ci[0], ce[0])
+            props.append((f"evaluation{e}.same_request_flags", SB((bool(ci[1]), bool(ci[2])) == (bool(ce[1]), bool(ce[2])))))
+        ri, re_ = seen_i.get("received", []), seen_e.get("received", [])
+        props.append(("algorithm_receives_the_same_number_of_answers", SB(len(ri) == len(re_))))
+        for e, (a, b) in enumerate(zip(ri, re_)):
+            same(f"answer{e}.same_functions", a[0], b[0])
+            same(f"answer{e}.same_gradients", a[1], b[1])
+        if "x0" in seen_i and "x0" in seen_e:
+            same("algorithm_starts_from_the_same_point", seen_i["x0"], seen_e["x0"])
+        else:
+            props.append(("algorithm_started_on_both_sides", SB(("x0" in seen_i) == ("x0" in seen_e))))
+        # outcome
+        from ropt.exceptions import OptimizationAborted
+        if out_i is None:
+            props.append(("same_outcome.normal_completion", SB(out_e is None)))
+        elif isinstance(out_i, OptimizationAborted):
+            props.append(("same_outcome.abort_with_the_same_exit_code",
+                          SB(isinstance(out_e, OptimizationAborted) and out_e.exit_code == out_i.exit_code)))
+        else:
+            props.append(("same_outcome.algorithm_error_is_an_error", SB(out_e is not None and not isinstance(out_e, OptimizationAborted))))
+        props.append(("no_process_left_running", SB(not oc.value["alive_after_start"] and oc.value["waited"] > 0)))
+        return props
+
+    def observe(self, env, inp, oc):
+        return {}
+
+
 class FlagsCase(Case):
     """The external wrapper must advertise exactly the capabilities of the wrapped in-process optimizer
     (allow_nan, is_parallel): they decide how ropt treats failed evaluations and batches, hence whether the
@@ -349,6 +612,13 @@ def build_cases(tier):
     for method, par in (("slsqp", False), ("differential_evolution", False), ("differential_evolution", True), ("scipy/nelder-mead", False)):
         k += 1
         cases.append(FlagsCase(f"c20-{k:03d}", method, par))
+    for kw in (dict(script=((0, True, False), (0, False, True), (0, True, True))),
+               dict(script=((2, True, False), (0, True, True)), parallel=True),
+               dict(script=((0, True, False), (0, True, True)), abort_at=1),
+               dict(script=((0, True, False), (0, True, False)), algorithm_fails_at=1),
+               dict(script=((0, True, True),), abort_at=0)):
+        k += 1
+        cases.append(LoopbackCase(f"c20-{k:03d}", **kw))
     if tier == "thorough":
         add(nevals=4)
         add(nevals=4, error_at=2)
